@@ -20,7 +20,7 @@ def mods(fake_skia=True, lex_placeholders=True):
     return m
 
 
-_OPAQUE = ("sin", "cos", "tan", "atan2", "round_", "ceil", "geo!", "area!", "bnd!")
+_OPAQUE = ("sin", "cos", "tan", "atan2", "round_", "ceil", "geo!", "area!", "bnd!", "ac!")
 
 
 def _has_opaque(t, seen=None):
@@ -76,6 +76,51 @@ def same_obs(a, b, tol=1e-6):
     if isinstance(a, (int, float)) and isinstance(b, (int, float)):
         return abs(a - b) <= tol * (1 + abs(a) + abs(b))
     return a == b
+
+
+def interior_model(ctx, eps="1/1000000"):
+    """A model of the path condition in which every decided inequality holds
+    with margin eps, so that the float run of the real package follows the same
+    branches.  None if the path needs an exact coincidence (validation skipped)."""
+    import z3
+
+    e = z3.RealVal(eps)
+
+    def strengthen(t):
+        if z3.is_not(t):
+            a = t.arg(0)
+            if z3.is_le(a):  # not (x <= y)  ->  x >= y + e
+                return a.arg(0) >= a.arg(1) + e
+            if z3.is_ge(a):
+                return a.arg(0) + e <= a.arg(1)
+            if z3.is_lt(a):
+                return a.arg(0) >= a.arg(1)
+            if z3.is_gt(a):
+                return a.arg(0) <= a.arg(1)
+            if z3.is_eq(a) and a.arg(0).sort() == z3.RealSort():
+                return z3.Or(a.arg(0) >= a.arg(1) + e, a.arg(0) + e <= a.arg(1))
+            if z3.is_and(a):
+                return z3.Or(*[strengthen(z3.Not(c)) for c in a.children()])
+            if z3.is_or(a):
+                return z3.And(*[strengthen(z3.Not(c)) for c in a.children()])
+            return t
+        if z3.is_and(t):
+            return z3.And(*[strengthen(c) for c in t.children()])
+        if z3.is_lt(t):
+            return t.arg(0) + e <= t.arg(1)
+        if z3.is_gt(t):
+            return t.arg(0) >= t.arg(1) + e
+        if z3.is_distinct(t) and t.num_args() == 2:
+            return z3.Or(t.arg(0) >= t.arg(1) + e, t.arg(0) + e <= t.arg(1))
+        return t
+
+    s = z3.Solver()
+    s.set("timeout", 3000)
+    for a in ctx.assertions:
+        s.add(strengthen(a))
+    if s.check() == z3.sat:
+        return s.model()
+    return None
 
 
 def run_symbolic(
@@ -134,7 +179,9 @@ def run_symbolic(
             if model is not None:
                 out["vacuity_twins_violated"] += 1
         if validate_every and (state["n"] <= 2 or state["n"] % validate_every == 0):
-            model = model or ctx.any_model()
+            model = interior_model(ctx)
+            if model is None:
+                out["validation_skipped"] = out.get("validation_skipped", 0) + 1
             if model is not None:
                 inputs = ctx.model_inputs(model)
                 ch = ConH(RealMods(), {k: str(v) for k, v in inputs.items()}, h.choices)
